@@ -74,7 +74,7 @@ func (o *simOkta) RoundTrip(req *http.Request) (*http.Response, error) {
 		var in struct{ Username, Password string }
 		json.Unmarshal(body, &in)
 		w.pwBackendCall(in.Username)
-		pw, ok := w.dirsim.Password[in.Username]
+		pw, ok := w.dirsim.Password[strings.ToLower(in.Username)] // Okta logins are not case sensitive
 		valid := ok && in.Password != "" && pw == in.Password
 		if ctx != nil {
 			ctx.pwChecks = append(ctx.pwChecks, vfPwCheck{User: in.Username, OK: valid})
